@@ -306,3 +306,30 @@ func init() {
 			Expect: []string{"C13.R3@-#phase-validator-wired"}},
 	)
 }
+
+// Round seven (corpus N*): Collect builds its result with append into a pre-sized slice instead of
+// an index-filled one.
+func init() {
+	const ostmpl = "internal/packages/internal/packagerender/objectsettemplate.go"
+	const copyLoop = "\tphases := make([]corev1alpha1.ObjectSetTemplatePhase, len(entries))\n\n\tfor i, e := range entries {\n\t\tphases[i] = e.Phase\n\t}\n"
+	const presized = "\tphases := make([]corev1alpha1.ObjectSetTemplatePhase, 0, len(entries))\n\n"
+	const skipR3 = "C13.R3@(internal/packages/internal/packagerender.phaseCollector).Collect#skip-only-empty"
+	addMutants(
+		Mutant{Prop: "C13", Name: "benign-collect-result-built-by-append-index-range", File: ostmpl, Benign: true,
+			Old: copyLoop, New: presized + "\tfor i := range entries {\n\t\tphases = append(phases, entries[i].Phase)\n\t}\n"},
+		Mutant{Prop: "C13", Name: "benign-collect-result-built-by-append-value-range", File: ostmpl, Benign: true,
+			Old: copyLoop, New: presized + "\tfor _, e := range entries {\n\t\tphases = append(phases, e.Phase)\n\t}\n"},
+		Mutant{Prop: "C13", Name: "collect-append-copy-skips-single-object-phases", File: ostmpl,
+			Why: "the copy loop leaves out collected phases that hold exactly one object",
+			Old: copyLoop, New: presized + "\tfor i := range entries {\n\t\tif len(entries[i].Phase.Objects) > 1 {\n\t\t\tphases = append(phases, entries[i].Phase)\n\t\t}\n\t}\n",
+			Expect: []string{skipR3}},
+		Mutant{Prop: "C13", Name: "collect-append-copy-starts-at-second-entry", File: ostmpl,
+			Why: "the copy loop drops the first phase of the manifest",
+			Old: copyLoop, New: presized + "\tfor i := 1; i < len(entries); i++ {\n\t\tphases = append(phases, entries[i].Phase)\n\t}\n",
+			Expect: []string{skipR3}},
+		Mutant{Prop: "C13", Name: "collect-append-copy-repeats-first-entry", File: ostmpl,
+			Why: "every result element is the first collected phase",
+			Old: copyLoop, New: presized + "\tfor range entries {\n\t\tphases = append(phases, entries[0].Phase)\n\t}\n",
+			Expect: []string{skipR3}},
+	)
+}
